@@ -10,7 +10,7 @@ CLAIMED = {
         'agrees with the independent reading, loop variants, and reads confined to the PDU\'s own octets) is '
         'discharged by z3 for all field values and all byte strings; list-valued PDUs (SNL, AGF round trip) are '
         'bounded stand-ins and not counted.',
-   design_ref='DESIGN.md section 5 (C11)',
+   design_ref='DESIGN.md Part A sections A.4 (this property), A.8',
    note='Trusted: pyvc encoding of Python semantics (cross-checked against CPython on every run), z3, '
         'specs/llcp_frames.py as the reading of LLCP 1.3. TLV-loop decoders: field agreement for arbitrary byte '
         'strings is proved only for fixed-format PDU types; SNL/AGF round trips bounded (<=3 entries / 2 sub-PDUs).',
@@ -23,7 +23,7 @@ CLAIMED = {
         'with loop invariants over an unbounded list of service access points and an unbounded aggregate (list '
         'measure for the AGF length): the returned PDU/aggregate never exceeds cfg[send-miu] unless a raw access '
         'point contributed; send()/sendto() refuse oversize messages before queuing; connect() clamps send_miu.',
-   design_ref='DESIGN.md section 5 (C10)',
+   design_ref='DESIGN.md Part A sections A.4 (this property), A.8',
    note='llc.sap is abstracted to the list of its active entries, each obeying the interface contract '
         '(models/llc_models.py, proved per implementing class); secure data transfer (self.sec) off; sorted() order '
         'abstracted; termination of the aggregation while-loop not proved; AGF dispatch order not covered.',
@@ -37,7 +37,7 @@ CLAIMED = {
         'independent validator extracts. acr122 ccid_xfr_block/command and rcs380 Frame likewise. The eight shift '
         'steps of calculate_crc equal the ISO/IEC 14443-3 Annex B byte step for all 2^24 (register, octet) pairs '
         '(bit-vector query). add/check_crc_a/b end-to-end are bounded stand-ins (<=1 octet) and not counted.',
-   design_ref='DESIGN.md section 5 (C14)',
+   design_ref='DESIGN.md Part A sections A.4 (this property), A.8',
    note='Transport is an environment model (arbitrary bytes or IOError per read). Log-call arguments are not '
         'evaluated (cmd_code restricted to the codes in Chipset.CMD). The fold of the CRC step over a message is '
         'argued on paper (both sides are left folds of step functions proved equal). _tt2_send_cmd_recv_rsp CRC '
@@ -52,7 +52,7 @@ CLAIMED = {
         'connect and __exit__, for all option/callback outcomes. self.device is havocked to None at every lock '
         'acquisition (another thread may have closed it), so a missing None check fails too; re-acquiring the '
         'non-reentrant lock is an obligation (no self-deadlock).',
-   design_ref='DESIGN.md section 5 (C15)',
+   design_ref='DESIGN.md Part A sections A.4 (this property), A.8',
    note='Meta-argument (trusted): if every driver call is made with the one frontend lock held, driver calls from '
         'different threads cannot overlap; threads are not executed. nfc.tag.activate/emulate, device.connect and the '
         'LLC are replaced by assumed contracts/models that use only the public frontend API. __str__ attribute reads '
@@ -67,7 +67,7 @@ CLAIMED = {
         'entry unchanged (frame), closing the last socket frees the address, a UI PDU is delivered only to the socket '
         'bound at its DSAP with payload and source intact, connect-by-name reaches the socket bound under the name or '
         'answers DM.',
-   design_ref='DESIGN.md section 5 (C17)',
+   design_ref='DESIGN.md Part A sections A.4 (this property), A.8',
    note='One socket per service access point in the table shape; service-name syntax check (regular expression) is an '
         'uninterpreted predicate; resolve() (blocking) and cross-device delivery are not covered (the channel is C10/C11); '
         'an exhausted 16-31 range raises EADDRNOTAVAIL as the existing tests pin (the statement lists EAGAIN).',
@@ -80,7 +80,7 @@ CLAIMED = {
         'unbounded queues; send refuses oversize messages and a full window and otherwise appends I(N(S)=V(S)); an I '
         'PDU is accepted iff N(S)==V(R) and it fits the MIU, is appended at the tail, else FRMR; acknowledgements carry '
         'N(R)=V(RA); connect/accept adopt the peer\'s MIU and RW; sequence state is written only under the lock.',
-   design_ref='DESIGN.md section 5 (C05)',
+   design_ref='DESIGN.md Part A sections A.4 (this property), A.8',
    note='Per endpoint only: each method is one atomic step (lock discipline is checked); peer conformance (N(R) within '
         'V(SA)..V(S), N(S) within the window) is a precondition; blocking send (wait on a full window), thread schedules '
         'and the two-endpoint composition (paper lemma over a FIFO channel) are not decided.',
@@ -95,7 +95,7 @@ CLAIMED = {
         'field; Initiator.activate and Target.activate against a peer modelled from the independent encoders: '
         'MIU + 3 + DID octet == / <= the LR the peer announced, RWT formula, general bytes, DID adoption, and the '
         'announced LRi/GBi in the ATR_REQ that is sent.',
-   design_ref='DESIGN.md section 5 (C19)',
+   design_ref='DESIGN.md Part A sections A.4 (this property), A.8',
    note='The MAC is replaced by assumed contracts in the LLC proofs; the radio (sense/listen/exchange) is an '
         'environment model; passive 106A activation without PSL (brs=0) and NAD unused; bit-rate selection and "all '
         'later traffic stays within the limits" (C04/C10) are not part of this check. Floats are reals.',
@@ -109,10 +109,12 @@ CLAIMED = {
         'of the last error. Surface operations (tt1 read_id/read_all/read_byte/read_block/read_segment/write_byte/'
         'write_block/_is_present, tt2 read/write/sector_select/_is_present, tt3 polling/read_from_ndef_service/'
         'write_to_ndef_service/_is_present): for every link behaviour and every response only the tag type\'s '
-        'command error (or the documented ValueError for bad arguments) escapes.',
-   design_ref='DESIGN.md section 5 (C16)',
+        'command error (or the documented ValueError for bad arguments) escapes; polling() returns a 2- or 3-tuple as '
+        'requested; sector_select reports a new sector only after the passive acknowledge of its second packet; '
+        'IsoDepInitiator.exchange (shared with C12) turns every link error into Type4TagCommandError.',
+   design_ref='DESIGN.md Part A sections A.4 (this property), A.8',
    note='The RF link is an environment model (models/clf_models.ExchangeClf). Not covered yet: NDEF-level operations '
-        '(Tag.ndef, format, protect, authenticate, dump), Type 4 (ISO-DEP retries are C12), vendor subclasses; '
+        '(Tag.ndef, format, protect, authenticate, dump), vendor subclasses; '
         'BrokenLinkError is outside the quantifier.',
    technique='contract-based deductive verification: raises-clauses and ghost command log over a symbolic error oracle (pyvc)'),
  'C07': dict(
@@ -123,10 +125,12 @@ CLAIMED = {
         'satisfies the precondition of the non-recursive decode summary, which is justified by the C11 case contracts), '
         'every TLV loop has a variant; ParameterExchange.decode yields parameters within their field widths; '
         'llc.activate returns a bool for arbitrary general bytes in both roles; Type3TagEmulation.process_command '
-        'returns a response or None for every command (block-list parsers bounded to 2 services/2 blocks, not counted).',
-   design_ref='DESIGN.md section 5 (C07)',
-   note='The MAC is an assumed contract (returns arbitrary general bytes). Not covered yet: llc.exchange/run loops, '
-        'SNEP/handover servers, connect(); thread death and blocking are outside this family (DESIGN section 6).',
+        'returns a response or None for every command (block-list parsers bounded to 2 services/2 blocks, not counted); '
+        'SnepServer.process_snep_request answers every complete request of any content (request code, length field) '
+        'and raises nothing.',
+   design_ref='DESIGN.md Part A sections A.4 (this property), A.8',
+   note='The MAC is an assumed contract (returns arbitrary general bytes). llc.exchange is under contract in C09, the '
+        'handover server in C06. Not covered: run loops beyond C09, connect(); thread death and blocking are outside this family (DESIGN section 6).',
    technique='contract-based deductive verification: raises = documented classes over fully symbolic byte strings (pyvc)'),
  'C13': dict(
    category='proof',
@@ -136,11 +140,13 @@ CLAIMED = {
         'rcs380 Device.send_cmd_recv_rsp/send_rsp_recv_cmd (every send_command may return a payload, None or raise '
         'IOError; all 32-bit communication status words): only nfc.clf.TimeoutError, TransmissionError, '
         'BrokenLinkError, ProtocolError or IOError escape for all target kinds. ContactlessFrontend.exchange adds '
-        'nothing but IOError(ENODEV) and releases its lock on every path.',
-   design_ref='DESIGN.md section 5 (C13)',
+        'nothing but IOError(ENODEV) and releases its lock on every path. rcs380 send_rsp_recv_cmd: the error kind '
+        'follows the status bits (RF_OFF: BrokenLinkError whatever else is set, else receive timeout: TimeoutError, '
+        'else TransmissionError).',
+   design_ref='DESIGN.md Part A sections A.4 (this property), A.8',
    note='Assumed: a well-framed response carries the payload length its command defines; pn532 TT1 bit-reversal path '
         'and the CRC check are assumed total. Not covered: pn531/pn533/rcs956/acr122/arygon specific overrides, udp, '
-        'listen-mode TT3 path, the status-to-class mapping clause beyond class membership.',
+        'listen-mode TT3 path, the status-to-class mapping of the pn53x family beyond class membership.',
    technique='contract-based deductive verification: raises-clauses, modular over the C14 command contract (pyvc)'),
  'C18': dict(
    category='proof',
@@ -151,9 +157,10 @@ CLAIMED = {
         'before any driver call. listen()/exchange(): the captured target is exactly what the call returned and the '
         'exchange direction follows its kind. One activation (_rdwr_connect, _card_connect) with a ghost event log: '
         'callbacks in the order discover, connect, release; on-release exactly once iff on-connect returned true; the '
-        'documented return values. connect(): TypeError iff an option is not a dict; None when no option survives '
+        'documented return values, with the device reference possibly gone at every lock acquisition (frontend closed '
+        'from a callback or another thread). connect(): TypeError iff an option is not a dict; None when no option survives '
         'on-startup.',
-   design_ref='DESIGN.md section 5 (C18)',
+   design_ref='DESIGN.md Part A sections A.4 (this property), A.8',
    note='Driver, tag activation/emulation are environment models/assumed contracts; callbacks return documented types; '
         'the activation loop over several iterations, _llcp_connect ordering and "ends promptly" (time) are not covered; '
         'driver I/O faults are C13.',
@@ -163,12 +170,13 @@ CLAIMED = {
    text='NTAG21x: _authenticate sends PWD_AUTH with the first four key octets and returns true exactly when PWD and '
         'PACK of a tag model match the six derived key octets (ValueError for 1..5 octet passwords); '
         '_protect_with_password followed by _authenticate(password2) is true exactly when both passwords derive the '
-        'same key, for all passwords, protect_from and read_protect values. FeliCa Lite (modulo an idealised, '
+        'same key, for all passwords, protect_from and read_protect values; a refused PWD_AUTH is silence or a 1-octet '
+        'NAK. FeliCa Lite (modulo an idealised, '
         'collision-free MAC and 3DES): _authenticate returns true exactly when the tag model holds the derived card '
         'key (challenge octet order, session key derivation, MAC over the ID block with RC1 as IV), sets the session '
         'key only then; read_with_mac returns data only when the MAC field of this response equals the MAC of its data '
         'field under the session key, for arbitrary (attacker chosen) responses.',
-   design_ref='DESIGN.md section 5 (C20)',
+   design_ref='DESIGN.md Part A sections A.4 (this property), A.8',
    note='Cryptography is idealised (pyDes triple_des and generate_mac are uninterpreted collision-free functions: '
         'unforgeability is assumed, not proved); generate_mac\'s body is out of reach; the tags are environment models '
         'read from the data sheets. Not covered: FeliCa Lite-S mutual authentication and write_with_mac, FeliCa '
@@ -183,11 +191,15 @@ CLAIMED = {
         'prefix of the peer\'s octets of exactly the announced length, refused when the announced length exceeds the '
         'acceptable length, Continue is sent at most once; server _serve - process_snep_request is called only with a '
         'complete request whose announced length is within max_acceptable_length (interface precondition at the call '
-        'site), all loops have variants.',
-   design_ref='DESIGN.md section 5 (C06)',
+        'site), all loops have variants. HandoverServer.serve: the request handed to the application is exactly the '
+        'octets received since the previous request, handed over only after a strict completeness probe accepted '
+        'those octets (interface preconditions at the call sites, loop invariants over the ghost input stream). '
+        'HandoverClient.send_octets: fragments are the message in order, none longer than the socket MIU; recv_octets '
+        'returns exactly the octets received so far, only after the strict completeness probe accepted them.',
+   design_ref='DESIGN.md Part A sections A.4 (this property), A.8',
    note='The socket is an environment model (C05 is its justification); ndef encode/decode are not inspected. Not '
-        'covered: process_snep_request field slicing, SnepClient.put/get header construction, handover client and '
-        'server, the full stack from connect() to the radio (modular proof stops at the socket).',
+        'covered: SnepClient.put/get header construction, the ndeflib '
+        'semantics of strict/relaxed decoding (assumed contract), the full stack from connect() to the radio (modular proof stops at the socket).',
    technique='contract-based deductive verification: loop invariants over a ghost byte stream (pyvc)'),
  'C09': dict(
    category='other',
@@ -198,8 +210,10 @@ CLAIMED = {
         'for every socket type, returns or raises nfc.llcp.Error (or the documented argument errors) and never reaches '
         'a wait() without timeout. Wake-up: for every blocking call site (DLC recv/accept/connect/send/close/poll, LDL '
         'recvfrom/sendto/poll, RAP recv/poll, ServiceDiscovery.resolve), if the link terminates while the caller '
-        'waits, the call returns or raises nfc.llcp.Error and does not wait again.',
-   design_ref='DESIGN.md sections 5 (C09) and 6',
+        'waits, the call returns or raises nfc.llcp.Error and does not wait again. llc.exchange returns a PDU or None '
+        'for every MAC outcome and every queued PDU including ones that can not be encoded (an escaping EncodeError '
+        'would end the run loop without terminate()).',
+   design_ref='DESIGN.md Part A sections A.4 (this property), A.8',
    note='NOT decided (outside this technique family): that a blocked thread is actually woken under every schedule, '
         'bounded time, connect() returning, service threads exiting. "Terminates while waiting" is modelled as the '
         'effect of close() at the wait() site; threads are not executed.',
@@ -213,10 +227,14 @@ CLAIMED = {
         'chaining loops with invariants and variants for every payload length), PNI stays in 0..3, DID/NAD presence '
         'matches, only CommunicationError subclasses escape for every response the transport may deliver; '
         'Initiator.send_dep_req_recv_dep_res over the frame exchange replaced by its contract: never returns a NACK, '
-        'an RTOX response carries its value, only CommunicationError subclasses escape.',
-   design_ref='DESIGN.md sections 5 (C04) and 6',
+        'an RTOX response carries its value, only CommunicationError subclasses escape. Initiator.activate: miu + 3 + '
+        '[DID] + [NAD] equals the LR of the Target for every DID/NAD option (NAD 0 included). '
+        'Target.send_dep_res_recv_dep_req over the frame exchange replaced by its contract with ghost flags: a request '
+        'repeated with the current PNI or a NAK is answered by the pending response, an attention request by an '
+        'attention response (loop invariant).',
+   design_ref='DESIGN.md Part A sections A.4 (this property), A.8',
    note='NOT decided: exactly-once delivery and reassembly under fault scripts, the composition of two real endpoints '
-        '(each is verified against an assumed contract of the step below it), Target transport recovery rules, '
+        '(each is verified against an assumed contract of the step below it), termination of the Target recovery loop, '
         'deactivate, clock progress of the deadline loop (assumed). With C19 (miu + header <= LR) the call-site '
         'precondition gives "no frame exceeds the announced payload size".',
    technique='contract-based deductive verification: modular layering with call-site preconditions (pyvc)'),
@@ -230,7 +248,7 @@ CLAIMED = {
         'budget (all loops under invariants). Type4ATag activation: for every standard-conformant ATS (any subset of '
         'TA/TB/TC, historical bytes, TL only) miu + 3 equals min(FSC(FSCI), device limit), FWT follows FWI of TB(1) or '
         'the default, nothing is raised.',
-   design_ref='DESIGN.md sections 5 (C12) and 6',
+   design_ref='DESIGN.md Part A sections A.4 (this property), A.8',
    note='NOT decided: at-most-once execution and complete response under fault scripts (needs a card role model '
         'over histories; the loops are verified only for safety), termination of the WTX / retransmit-after-ACK '
         'loops against an adversarial card (no variant exists; reported as a note), retry counting, Type4BTag.',
@@ -245,8 +263,9 @@ CLAIMED = {
         'finds, sends no write command and reports len <= capacity; _discover_ndef takes the real limits of the CC '
         '(capacity + NLEN field = file size, capped at what 16-bit offsets address; MLe/MLc capped at short-APDU '
         'limits); the octets setter refuses longer data before any command. Type 1/2 (TLV walk with skip bytes) are '
-        'bounded stand-ins (fixed layouts, symbolic contents) and not counted; the emulated Type 3 Tag is not covered.',
-   design_ref='DESIGN.md section 5 (C01-C03)',
+        'bounded stand-ins (real code under CPython on 23/44 fixed layouts x boundary lengths, independent TLV reader) '
+        'and not counted; the emulated Type 3 Tag is not covered.',
+   design_ref='DESIGN.md Part A sections A.4 (this property), A.8',
    note='Tag memories are environment models: Type 3 service with atomic block-list writes; Type 4 short-APDU card '
         'whose 16-bit P1P2 offset addresses the whole file (offsets above 7FFFh as the library itself assumes). '
         'Well-formed means: T3 valid checksum, Nbr/Nbw >= 1, declared blocks exist, RFU zero; T4 mapping 2.x/3.x, '
@@ -260,7 +279,7 @@ CLAIMED = {
         'message and previous content, inside the write loops by invariant; the final state satisfies it too. '
         'Type 4 is stated for MLc >= NLEN field size (with a smaller MLc no command sequence can commit the length '
         'atomically). Type 1/2 are bounded stand-ins and not counted.',
-   design_ref='DESIGN.md section 5 (C01-C03)',
+   design_ref='DESIGN.md Part A sections A.4 (this property), A.8',
    note='Atomicity of one command on the tag is assumed (a block-list write / UPDATE BINARY happens entirely or not '
         'at all). Same environment models and well-formedness as C01.',
    technique='contract-based deductive verification: interface preconditions on ghost tag memory at every write (pyvc)'),
@@ -271,7 +290,7 @@ CLAIMED = {
         'WriteF/Ln/checksum, memory beyond the message keeps its value (frame postcondition over the whole ghost '
         'memory); Type 4 format(wipe) stays inside the file and leaves an empty message. Type 1/2 are bounded '
         'stand-ins and not counted.',
-   design_ref='DESIGN.md section 5 (C01-C03)',
+   design_ref='DESIGN.md Part A sections A.4 (this property), A.8',
    note='Same environment models as C01. Type 3 format() (tt3_sony FelicaLite) and Type 1/2 _format are not covered.',
    technique='contract-based deductive verification: frame conditions on ghost tag memory (pyvc)'),
  'C08': dict(
@@ -279,11 +298,16 @@ CLAIMED = {
    text='Type 3 and Type 4 readers against an adversarial tag (every response arbitrary bytes of any length or a '
         'command error, for Type 4 behind the real send_apdu/transceive): _read_attribute_data, _read_ndef_data and '
         '_discover_ndef raise nothing (Type 4 discovery: only Type4TagCommandError, which Tag.ndef callers handle), '
-        'return None or data with len <= capacity, and send a bounded number of commands (loop variants). '
+        'return None or data with len <= capacity, and send a bounded number of commands (loop variants); polling() '
+        'returns the tuple shape its callers unpack for every SENSF_RES. A native bounded stand-in (five scripted '
+        'adversarial Type 4A cards, not counted) exhibits three KNOWN FINDINGS: endless S(WTX), endless R(ACK) with the '
+        'other block number and endless response chaining keep IsoDepInitiator.exchange sending for ever. '
         'Type 1/2 TLV walkers and activation dispatch are not covered (see C16 for the per-command contracts and C12 '
         'for RATS/ATS evaluation).',
-   design_ref='DESIGN.md section 5 (C08)',
-   note='Tag.ndef / NDEF.has_changed wrappers, tt1/tt2 memory readers and vendor probing are NOT decided here.',
+   design_ref='DESIGN.md Part A sections A.4 (this property), A.8',
+   note='Tag.ndef / NDEF.has_changed wrappers, tt1/tt2 memory readers and vendor probing are NOT decided here. '
+        'Termination of the ISO-DEP loops is not proved (no variant exists); the three known findings are listed in '
+        'known_findings.json and printed as KNOWN-FINDING lines on every run.',
    technique='contract-based deductive verification: raises-clauses and loop variants against adversarial models (pyvc)'),
 
 }
